@@ -74,7 +74,9 @@ def run_selftest(prop):
     metas = []
     for meta_path in sorted(glob.glob(os.path.join(runner.VERIF, "seeded", "*", "meta.json"))):
         meta = json.load(open(meta_path))
-        if prop in meta.get("detected_by", []):
+        # the self-test runs the QUICK tier on the mutant: skip mutants that only the thorough tier of this property
+        # catches (their slice is not in the quick slice list; recorded as `thorough_only` in the meta file)
+        if prop in meta.get("detected_by", []) and prop not in meta.get("thorough_only", []):
             metas.append(meta_path)
     # at most VERIF_SELFTEST_MAX mutants per run (default 6): the property's own first, then evenly over the rest
     cap = int(os.environ.get("VERIF_SELFTEST_MAX", "6") or 6)
